@@ -498,7 +498,8 @@ theorem facts_tie : Facts.distribute_prunes_then_appends_ring_owners = true ∧
     Facts.only_oldest_member_computes_and_receivers_verify_sender = true ∧
     Facts.leftover_report_is_pushed_again = true ∧
     Facts.distribute_works_on_a_copy_of_the_owners = true ∧
-    Facts.periodic_push_runs_on_every_member = true := by decide
+    Facts.periodic_push_runs_on_every_member = true ∧
+    Facts.pushed_table_is_checked_before_it_is_applied = true := by decide
 
 /-! Non-vacuity: three live members; member (1,11) re-joined as (1,12); previous owners [(1,11), (0,10)],
     member 0 reports 5 keys; the ring picks member 2. -/
